@@ -13,6 +13,7 @@ import Tdgl.Runner
 import Tdgl.Reader
 import Tdgl.RunningState
 import Tdgl.Adaptive
+import Tdgl.AdaptiveRun
 import Tdgl.Handler
 import Tdgl.Options
 import Tdgl.Param
@@ -398,6 +399,21 @@ def step (st : St) (line : String) : St × String :=
           | some _ => "tmp-present"
           | none => "tmp-absent"
         (st, s!"{showResult res} ser={showSer ser} {out} {tmp}")
+    | ["astep", g, u, dtInit, dtMax, adaptive, window, mult, maxRetries, stepIdx, tentative, tp], [fx, th, psi, muOld, eps, mb, hist, muNew] =>
+      -- one whole adaptive update (Tdgl/AdaptiveRun.lean `adaptiveStep`): retry loop, Euler step on all sites, terminal
+      -- re-imposition, observables, controller.  The sparse solve is external: its answer `muNew` is handed in.
+      let fixed := nats fx
+      let tpv : Option (Cx Float) := match tp.splitOn "," with
+        | [re, im] => some ⟨f re, f im⟩
+        | _ => none
+      let o : AdaptOpts Float := ⟨f dtInit, f dtMax, adaptive == "1", nat window, f mult, nat maxRetries, 1e-10, 0.5⟩
+      let muN := floats muNew
+      let s : AState Float := ⟨⟨cfn (floats psi), fn (floats muOld), fun _ => 0, fun _ => 0⟩, ⟨f tentative, (floats hist).toList⟩⟩
+      match adaptiveStep m (fun r => fixed.getD r 0 == 1) tpv (linkOf (fn (floats th))) (fun _ => fn muN) (fn (floats eps))
+          (f g) (f u) (fn (floats mb)) o (nat stepIdx) s with
+      | none => (st, "raise")
+      | some (dt, s') =>
+        (st, s!"{b dt} {b s'.ctl.tentative} {b (s'.ctl.hist.getLast?.getD 0)} {s'.ctl.hist.length} | {outC m.n s'.phys.psi} | {outF m.E s'.phys.js} | {outF m.E s'.phys.jn}")
     | ["adapt", dtInit, dtMax, adaptive, window, mult, maxRetries], [ds, refused] =>
       let o : AdaptOpts Float := ⟨f dtInit, f dtMax, adaptive == "1", nat window, f mult, nat maxRetries,
         1e-10, 0.5⟩
